@@ -247,6 +247,14 @@ def default_ufun_axioms(terms):
     if _mentions_decl(terms, "u_exp"):
         f = lambda t: V.ufun("exp", t)          # noqa: E731
         out += [f(z3.RealVal(0)) == 1, z3.ForAll([x], f(x) > 0, patterns=[f(x)])]
+    # physical and mathematical constants (scipy.constants / numpy.pi are symbols): what is known about them
+    if _mentions_decl(terms, "c_pi"):
+        out += list(V.pi_axioms())
+    if _mentions_decl(terms, "c_c"):
+        out.append(z3.Real("c_c") == 299792458)            # exact SI value
+    for nm in ("c_hbar", "c_h", "c_e", "c_k", "c_epsilon_0", "c_N_A"):
+        if _mentions_decl(terms, nm):
+            out.append(z3.Real(nm) > 0)
     if _mentions_decl(terms, "u_cos") or _mentions_decl(terms, "u_sin"):
         c_ = lambda t: V.ufun("cos", t)         # noqa: E731
         s_ = lambda t: V.ufun("sin", t)         # noqa: E731
